@@ -30,7 +30,7 @@ import typedpy
 from typedpy import (AllOf, AnyOf, Array, Deque, Deserializer, ImmutableSet, Integer, Map, NotField, Number, OneOf,
                      Serializer, Set, String, Structure, Tuple)
 
-from typedpy.structures import Field
+from typedpy.structures import Field, TypedPyDefaults
 from typedpy import DateField, DateTime, Enum, ImmutableStructure, mappers
 from typedpy import serialize as tp_serialize
 
@@ -50,7 +50,7 @@ STMT_END = {}       # (abs path, first line of a multi-line statement in a site 
 def _build_tables():
     seen = set()
     for r in ROWS:
-        if r["valueKind"] in ("keyedCache", "publishedIncomplete", "transientEntries", "checkThenGet") and r.get("first_line"):
+        if r["valueKind"] in ("keyedCache", "publishedIncomplete", "transientEntries", "checkThenGet", "modeToggle") and r.get("first_line"):
             # functions that fill a module-level cache: every line is a yield point in the "sitelines" scope
             SITEFUNCS.add((os.path.abspath(os.path.join(SW.repo_dir(), r["path"])), r["first_line"]))
         if not r.get("events") or r["valueKind"] not in ("perCall", "ownerName"):
@@ -323,6 +323,29 @@ def _build_shape(name):
             n = Integer
             _required = []
         return Shape(name, Sr, racy=name == "ser_array_date")
+    if name in ENUM_SHAPES:
+        decl = {"enum_scalar": lambda: Enum[Color], "enum_anyof": lambda: AnyOf[Enum[Color], Integer],
+                "enum_map_value": lambda: Map[String, Enum[Color]], "enum_tuple": lambda: Tuple[Enum[Color], Integer]}[name]
+
+        class En(Structure):
+            a = decl()
+            n = Integer
+            _required = []
+        return Shape(name, En)
+    if name == "multi_nested":
+        # multi-field wrappers with a nested-structure option next to plain fields that can be invalid together
+        class Customer(Structure):
+            name = String(minLength=1)
+            age = Integer(minimum=0)
+            _required = ["name"]
+
+        class Doc(Structure):
+            who = AnyOf[Customer, String]
+            alt = OneOf[Customer, Integer]
+            x = Integer(minimum=0)
+            y = String(minLength=2)
+            _required = []
+        return Shape(name, Doc)
     if name == "shared_ref":
         # reference data: many owners refer to one nested instance
         class Currency(ImmutableStructure):
@@ -461,6 +484,7 @@ def shape(name):
 
 SER_SHAPES = ["ser_map_date", "ser_map_enumkey", "ser_set_enum", "ser_set_date", "ser_tuple_date", "ser_pos_array_date",
               "ser_pos_deque_enum", "ser_array_date"]
+ENUM_SHAPES = ["enum_scalar", "enum_anyof", "enum_map_value", "enum_tuple"]
 COLD_SHAPES = ["cold_camel", "cold_lower", "cold_dict", "cold_nested_mappers"]
 A_SHAPES = ["array_int", "deque_int", "tuple_homog", "array_two_fields", "set_int", "shared_set", "map_int",
             "shared_map", "pos_array", "pos_deque", "pos_tuple", "shared_pos_array", "shared_pos_deque",
@@ -576,6 +600,24 @@ def gen_cold_value(rng, sname, field):
 
 def gen_value(rng, sname, field, bad=0.2):
     """a JSON value description for `field` of shape `sname`"""
+    if sname in ENUM_SHAPES:
+        if field == "n":
+            return _int(rng, 0.0)
+        # every thread its OWN member (thread index picks it), given as the member or as its name
+        name = ["RED", "GREEN", "BLUE"][_BASE[0] % 3]
+        one = {"enum": name} if rng.random() < 0.5 else name
+        return {"enum_scalar": one, "enum_anyof": one, "enum_map_value": {"m": [["k" + str(_BASE[0]), one]]},
+                "enum_tuple": {"t": [one, _int(rng, 0.0)]}}[sname]
+    if sname == "multi_nested":
+        def cust(bad_p):
+            return {"d": {"name": "" if rng.random() < bad_p else "c" + str(_BASE[0]), "age": _int(rng, bad_p)}}
+        if field == "who":
+            return rng.choice([cust(0.0), cust(0.5), "w" + str(_BASE[0]), 5])
+        if field == "alt":
+            return rng.choice([cust(0.0), cust(0.5), _int(rng, 0.0), "s"])
+        if field == "x":
+            return _int(rng, bad)
+        return "" if rng.random() < bad else "yy" + str(_BASE[0])
     if sname == "shared_ref":
         return {"d": {"code": "C" + str(_BASE[0]), "digits": _int(rng, 0.0)}} if field in ("currency", "fallback") else _int(rng, 0.0)
     if sname == "shared_default":
@@ -799,6 +841,9 @@ class Run:
                 r = 0
             elif self.scope == "all":
                 r = 1
+            elif self.scope == "fieldlines":
+                # every line of the field implementations and of the generic __set__ / _validate / __setattr__ code
+                r = 1 if (os.sep + "fields" + os.sep in fn or code.co_name in ("__set__", "_validate", "__setattr__")) else 0
             else:
                 r = 1 if (fn, code.co_firstlineno) in SITEFUNCS else 0
             self._codes[code] = r
@@ -1015,6 +1060,22 @@ def warm_history(case):
     return _HISTORY[key]
 
 
+def get_modes():
+    """the process-wide configuration flags"""
+    m = {"fail_fast": Structure.failing_fast()}
+    m.update({k: v for k, v in vars(TypedPyDefaults).items()
+              if not k.startswith("_") and isinstance(v, (bool, int, str, type(None)))})
+    return m
+
+
+def set_modes(m):
+    for k, v in m.items():
+        if k == "fail_fast":
+            Structure.set_fail_fast(v)
+        else:
+            setattr(TypedPyDefaults, k, v)
+
+
 def run_schedule(case, sched, scope):
     for attempt in (0, 1):
         sh = run_shape(case["shape"])
@@ -1022,12 +1083,20 @@ def run_schedule(case, sched, scope):
         if case.get("warmup"):
             conts, snap, _ = warm_history(case)
             _restore(conts, snap)
-        ops = build_ops(case, sh)
+        base = get_modes()
         try:
-            return Run(ops, sched, scope, sh.cell_ids).run()
+            set_modes(case.get("modes", {}))       # e.g. collect-all error mode for the whole schedule
+            want = get_modes()
+            ops = build_ops(case, sh)
+            run = Run(ops, sched, scope, sh.cell_ids).run()
+            # the operations must leave the process-wide configuration as they found it
+            run.mode_dev = {k: v for k, v in get_modes().items() if want.get(k) != v}
+            return run
         except RuntimeError:        # scheduler timeout: once is retried (infrastructure), twice is reported
             if attempt:
                 raise
+        finally:
+            set_modes(base)
 
 
 def sequential(case):
@@ -1043,9 +1112,14 @@ def sequential(case):
         if case.get("warmup"):
             conts, snap, _ = warm_history(case)
             _restore(conts, snap)
-        ops = build_ops(case, sh)
-        for pos, i in enumerate(perm):
-            r = outcome_of(ops[i])
+        base = get_modes()
+        set_modes(case.get("modes", {}))
+        try:
+            ops = build_ops(case, sh)
+            outs = [(i, outcome_of(ops[i])) for i in perm]
+        finally:
+            set_modes(base)
+        for pos, (i, r) in enumerate(outs):
             if pos == 0:
                 alone[i] = r
             if r not in allowed[i]:
@@ -1190,10 +1264,11 @@ def run_impl(case):
         bad = [i for i in range(len(seq)) if r.results[i] not in allowed[i]]
         nonseq += 1 if bad else 0
         msched = [tid for tid, _ in r.events] if stream == "A" else None
-        k = json.dumps([msched, r.results], sort_keys=True) if stream == "A" else json.dumps([r.results, r.conflicts()], sort_keys=True)
+        mode_dev = getattr(r, "mode_dev", None) or None
+        k = json.dumps([msched, r.results], sort_keys=True) if stream == "A" else json.dumps([r.results, r.conflicts(), mode_dev], sort_keys=True)
         if k not in distinct:
             per_thread = [[e for t, e in r.events if t == i] for i in range(len(seq))] if stream == "A" else None
-            distinct[k] = {"sched": sch, "res": r.results, "bad": bad, "conflicts": r.conflicts(),
+            distinct[k] = {"sched": sch, "res": r.results, "bad": bad, "conflicts": r.conflicts(), "mode": mode_dev,
                            "msched": msched, "events": per_thread, "count": 0}
         distinct[k]["count"] += 1
     return {"seq": seq, "allowed": allowed, "runs": len(runs), "nonseq": nonseq, "outcomes": list(distinct.values())}
@@ -1250,6 +1325,13 @@ def oracle(case, impl):
     fails = []
     seen = set()
     for o in impl.get("outcomes", []):
+        if o.get("mode"):
+            key = f"mode-flag-changed:{case['shape']}"
+            if key not in seen:
+                seen.add(key)
+                fails.append((key, f"shape {case['shape']} threads {json.dumps(case['threads'])} schedule "
+                                   f"{json.dumps(o['sched'])}: process-wide configuration after the operations differs from "
+                                   f"before: {json.dumps(o['mode'])}"))
         for i, th in enumerate(case["threads"]):
             r = o["res"][i]
             own = ints_in(th)
@@ -1417,7 +1499,7 @@ def gen_cases(rng, tier, scale=1.0):
                       "threads": [{"op": "setattr", "field": fl[0], "value": v0},
                                   {"op": "setattr", "field": fl[1], "value": v1}]})
     reps_e = max(1, int((1 if quick else 3) * scale))
-    for sname in (rng.sample(E_SHAPES, 16) if quick else E_SHAPES):
+    for sname in (rng.sample(E_SHAPES, 13) if quick else E_SHAPES):
         for _ in range(reps_e):
             flat = sname in ("anyof", "oneof", "allof", "notfield") or sname.startswith("shared_")
             add("E", sname, 2, max_pre=max_pre, cap=100 if quick else 320, **({"yield": "sitelines"} if flat else {}))
@@ -1448,7 +1530,8 @@ def gen_cases(rng, tier, scale=1.0):
         if any(k.startswith("opt-") for k in vk):
             # directed: one thread passes an explicit None, the other None / a value the earlier options reject
             add_twin("E", sname, 2, directed=[None, None], max_pre=2, cap=60 if quick else 250, **ykw)
-            add_twin("E", sname, 2, directed=[None, 2.5], max_pre=2, cap=60 if quick else 250, **ykw)
+            if not quick or rng.random() < 0.5:
+                add_twin("E", sname, 2, directed=[None, 2.5], max_pre=2, cap=60 if quick else 250, **ykw)
         for _ in range(max(1, int((1 if quick else 2) * scale)) if (not quick or rng.random() < 0.5) else 0):
             add_twin("E", sname, 2, max_pre=max_pre, cap=60 if quick else 250, **ykw)
         if not quick and any(k.startswith("opt-") for k in vk):
@@ -1499,12 +1582,46 @@ def gen_cases(rng, tier, scale=1.0):
             [["deserialize", "deserialize"], ["serialize", "deserialize"], ["serialize", "serialize"],
              ["construct", "deserialize"], ["deserialize", "serialize", "deserialize"]]
         for ops in mixes:
-            add_ops("B", sname, ops, max_pre=max_pre, nsched=20 if quick else 35)
+            add_ops("B", sname, ops, max_pre=max_pre, nsched=15 if quick else 35)
         if sname in cold_e:
             # exhaustively at every line of the functions that fill a module-level cache (translator rows); the
             # serialization and the deserialization side have separate caches: same-direction pairs
             add_ops("E", sname, ["deserialize", "deserialize"], max_pre=1 if quick else 2, cap=400 if quick else 200, **{"yield": "sitelines"})
             add_ops("E", sname, ["serialize", "serialize"], max_pre=1 if quick else 2, cap=400 if quick else 200, **{"yield": "sitelines"})
+    # Enum fields: every thread a DIFFERENT member (as member or by name); exhaustive single pre-emption at EVERY line of
+    # the field implementations / generic __set__, _validate (table independent) + line-level sampling
+    for sname in ENUM_SHAPES:
+        add_ops("E", sname, [rng.choice(["setattr", "construct"]) for _ in range(2)], max_pre=1 if quick else 2,
+                cap=150 if quick else 300, **{"yield": "fieldlines"})
+        if not quick or rng.random() < 0.5:
+            add_ops("B", sname, [rng.choice(["setattr", "construct", "deserialize"]) for _ in range(3 if not quick else 2)],
+                    max_pre=max_pre, nsched=20 if quick else 40)
+    # the same exhaustive every-field-line stream on a few of the other flat shapes
+    for sname in rng.sample(["scalar", "anyof", "oneof", "allof", "notfield", "set_int", "map_int", "pos_tuple",
+                             "twin_optional_field", "twin_anyof_none", "ser_set_date", "ser_map_date"], 2 if quick else 8):
+        if sname.startswith("twin_"):
+            add_twin("E", sname, 2, max_pre=1, cap=200, **{"yield": "fieldlines"})
+        else:
+            add("E", sname, 2, max_pre=1, cap=200, **{"yield": "fieldlines"})
+    # collect-all error mode for the whole schedule: a deserializing thread (multi-field wrapper with a nested-structure
+    # option) against a constructing thread whose input has several invalid fields; exception class and full message are
+    # compared with the sequential result, and the process-wide mode flags must be what they were
+    for modes in ({"fail_fast": False}, {}):
+        for stream in ("B", "E"):
+            _BASE[0] = 0
+            a = {"op": "deserialize", "kw": {"who": {"d": {"name": "c0", "age": _int(rng, 0.3)}}, "alt": gen_value(rng, "multi_nested", "alt"),
+                                             "x": _int(rng, 0.0)}}
+            _BASE[0] = 1
+            b = {"op": rng.choice(["construct", "construct", "deserialize"]), "kw": {"x": -(10 + rng.randint(1, 9)), "y": "",
+                                                                                    "who": gen_value(rng, "multi_nested", "who")}}
+            c = {"stream": stream, "shape": "multi_nested", "threads": [a, b], "modes": modes, "sseed": rng.randrange(1 << 30),
+                 "max_pre": 1 if (quick or stream == "E") else max_pre}
+            c.update({"cap": 200, "yield": "sitelines"} if stream == "E" else {"nsched": 25 if quick else 80})
+            if stream == "B" or modes:
+                cases.append(c)
+    if not quick:
+        for _ in range(4):
+            add("B", "multi_nested", 2, max_pre=max_pre, nsched=40, modes={"fail_fast": False})
     # two top-level instances that SHARE a nested Structure instance, serialized through the generic serialize() path
     def add_shared(stream, sname, share, n=2, **kw):
         ths = []
@@ -1546,9 +1663,9 @@ def gen_cases(rng, tier, scale=1.0):
             else:
                 ths.append({"op": op, "kw": {g: gen_value(rng, sname, g, bad=0.0 if op == "serialize" else 0.1) for g in fs}})
         cases.append({"stream": "B", "shape": sname, "threads": ths, "sseed": rng.randrange(1 << 30),
-                      "max_pre": max_pre, "nsched": 40 if quick else 100})
+                      "max_pre": max_pre, "nsched": 30 if quick else 100})
     reps_b = max(1, int((1 if quick else 4) * scale))
-    for sname in (rng.sample(ALL_SHAPES, 18) if quick else ALL_SHAPES):
+    for sname in (rng.sample(ALL_SHAPES, 14) if quick else ALL_SHAPES):
         for _ in range(reps_b):
             add("B", sname, 3 if rng.random() < 0.2 else 2, max_pre=max_pre, nsched=20 if quick else 35)
     return cases
